@@ -327,6 +327,8 @@ fn run_case(seed: u64, idx: u64, _tier: Tier, out: &mut CaseOut) {
                 opt.raw = true;
             } else {
                 opt.no_borders = true;
+                // builder order: a later raw_mode(false) must not bring the borders back
+                opt.raw_false_last = rng.chance(1, 3);
             }
             let a = render_string(&base, &input, w);
             let b = render_string(&opt, &input, w);
